@@ -1647,3 +1647,16 @@ V(id='c04-shape-mpf-kernel-gets-pair', prop='C04', file='mpmath/libmp/libmpc.py'
 V(id='c04-shape-mpc-kernel-gets-mpf', prop='C04', file='mpmath/ctx_mp_python.py',
   old="            v._mpc_ = mpc_add_mpf(s._mpc_, t._mpf_, prec, rounding)", new="            v._mpc_ = mpc_add(s._mpc_, t._mpf_, prec, rounding)",
   expect='fire:H-R15:__add__')
+
+# ---- C01 E-R6 special-value guard (fix 688f6d5) ----
+V(id='c01-ctor-tuple-specials-normalized', prop='C01', file='mpmath/ctx_mp_python.py',
+  old="                if (not man) and exp:\n                    # inf or nan\n                    v._mpf_ = val\n                else:\n                    v._mpf_ = normalize(sign, MPZ(man), exp, bc, prec, rounding)",
+  new="                v._mpf_ = normalize(sign, MPZ(man), exp, bc, prec, rounding)",
+  expect='fire:E-R6:__new__')
+V(id='c01-ctor-same-type-specials-normalized', prop='C01', file='mpmath/ctx_mp_python.py',
+  old="            if (not man) and exp:\n                return val\n            v = new(cls)", new="            v = new(cls)",
+  expect='fire:E-R6:__new__')
+V(id='c01-ctor-tuple-raw-stored-unguarded', prop='C01', file='mpmath/ctx_mp_python.py',
+  old="                if (not man) and exp:\n                    # inf or nan\n                    v._mpf_ = val\n                else:",
+  new="                if not man:\n                    v._mpf_ = val\n                else:",
+  expect='fire:E-R6:__new__')
